@@ -35,6 +35,8 @@ DEFAULTS = dict(
     workers=None,
     plain_workers=4,
     models_per_claim=3,
+    branch_timeout_ms=3000,
+    vacuity_timeout_ms=10000,
 )
 
 
@@ -107,7 +109,7 @@ def child_sym(mod, cfg, schedule, opts, findings):
     t0 = time.time()
     api.reset("sym")
     E.reset(schedule)
-    E.timeout_ms = opts["query_timeout_ms"]
+    E.timeout_ms = opts.get("branch_timeout_ms", 3000)  # branch feasibility: unknown => both sides explored
     E.structure_value_dependent = False
     loader.ENTERED.clear()
     res = dict(status="ok", claims=[], pending=[], notes=[], error=None)
@@ -156,12 +158,23 @@ def child_sym(mod, cfg, schedule, opts, findings):
 
     # vacuity / reachability: the path condition (incl. harness assumptions) must be satisfiable
     s = z3.Solver()
-    s.set("timeout", opts["query_timeout_ms"])
+    s.set("timeout", opts.get("vacuity_timeout_ms", 10000))
     s.add(*pc)
     s.add(*dens)
     tq = time.time()
-    r = s.check()
-    E.stats["queries"] += 1
+    r = z3.unknown
+    if api.ST.hints:
+        # witness search with the harness' hints (e.g. arbitrary weights := 1 makes the rest linear)
+        s.push()
+        s.add(*api.ST.hints)
+        r = s.check()
+        E.stats["queries"] += 1
+        if r != z3.sat:
+            s.pop()
+            r = z3.unknown
+    if r != z3.sat:
+        r = s.check()
+        E.stats["queries"] += 1
     E.stats["solver_s"] += time.time() - tq
     res["pc_sat"] = str(r)
     if r == z3.unsat:
@@ -539,11 +552,12 @@ def run_check(modname, tier, seed, only=None, mutations=None, write_evidence=Tru
 
     # ---------------- translator validation: const (through the hook) vs plain import
     nval = opts["validate"]
-    if nval == "all" or nval >= len(configs):
-        vidx = list(range(len(configs)))
+    cand = [i for i in range(len(configs)) if not hasattr(mod, "validate_filter") or mod.validate_filter(configs[i])]
+    if nval == "all" or nval >= len(cand):
+        vidx = list(cand)
     else:
-        step = max(1, len(configs) // max(1, nval))
-        vidx = sorted(set(list(range(0, len(configs), step))[:nval] + [len(configs) - 1])) if configs else []
+        step = max(1, len(cand) // max(1, nval))
+        vidx = sorted(set(cand[::step][:nval] + cand[-1:])) if cand else []
     val_jobs = collections.deque((i, seed + 7 * k) for k, i in enumerate(vidx))
     val_results = {}
     running = {}
@@ -751,7 +765,7 @@ def run_check(modname, tier, seed, only=None, mutations=None, write_evidence=Tru
             inconclusive=[dict(cfg=cfg_key(x["cfg"])[:200], claim=x["claim"], why=x["why"]) for x in inconclusive[:50]],
             n_inconclusive=len(inconclusive),
             configurations=len(configs),
-            paths=dict(feasible=int(stats["paths_feasible"]), infeasible=int(stats["paths_infeasible"]), unsupported=int(stats["paths_unsupported"]), forks=int(stats["forks"]), branch_decisions=int(stats["branches"]), unknown_branches=int(stats["unknown_branches"])),
+            paths=dict(feasible=int(stats["paths_feasible"]), infeasible=int(stats["paths_infeasible"]), unsupported=int(stats["paths_unsupported"]), forks=int(stats["forks"]), branch_decisions=int(stats["branches"]), unknown_branches=int(stats["unknown_branches"]), path_condition_satisfiability_unknown=int(stats["paths_pc_unknown"])),
             solver=dict(queries=int(stats["queries"]), seconds=round(solver_s, 2), z3=z3.get_version_string()),
             functions_encoded=[f"{f['module']}:{f['qualname']}#{f['sha256'][:12]}" for f in funcs],
             n_functions_encoded=len(funcs),
@@ -840,6 +854,8 @@ def _absorb(r, i, sched, configs, per_cfg, stats, all_claims, entered, samples, 
     pcf = per_cfg[i]
     pcf["paths"] += 1
     st = r.get("stats", {})
+    if verbose and st.get("wall", 0) > 5:
+        print(f"[slow path] {st.get('wall'):.1f}s cfg={cfg_key(configs[i])[:160]} schedule={r.get('schedule')} status={r['status']} pc_sat={r.get('pc_sat')} solver_s={st.get('solver_s', 0):.1f} claims={[(e['name'][:40], e['verdict'], round(e['solver_s'], 1)) for e in r.get('claims', []) if e['solver_s'] > 1]}", flush=True)
     for k in ("queries", "forks", "branches", "unknown_branches"):
         stats[k] += st.get(k, 0)
     for p in r.get("pending", []):
@@ -862,6 +878,8 @@ def _absorb(r, i, sched, configs, per_cfg, stats, all_claims, entered, samples, 
         return
     pcf["feasible"] += 1
     stats["paths_feasible"] += 1
+    if r.get("pc_sat") == "unknown":
+        stats["paths_pc_unknown"] += 1
     if status == "exception" and verbose:
         print(r.get("trace"))
     for e in r["claims"]:
